@@ -141,6 +141,7 @@ def check(case, rec):
                             (src, after_write))
         r = read(path, case["reader"])
         got = observe.snapshot(r)
+        observe.check_lookups(r, got, "loaded table")
         got_gmd = {a: dict(r.group_metadata(a) or {})
                    for a in ("observation", "sample")}
         got_date, got_gen = r.create_date, r.generated_by
